@@ -177,6 +177,7 @@ class Engine:
         self.tree = ast.parse(self.src)
         self.timeout_ms = timeout_ms
         self._mem_cache = {}
+        self._touched = set()
         self.returns = []       # (state, value) of every explored return, for whole-function analyses
         self._addr = 0
         self.obligations = []
@@ -366,12 +367,27 @@ class Engine:
 
             eng_ = self
 
+            eng_._seqid = getattr(eng_, "_seqid", 0) + 1
+            sid = eng_._seqid
+
             def row(i):
                 eng_._addr += 1
-                Heap.shared[eng_._addr] = HSeq(ln(i), mk(i), numpy=isarr, etype=iet)
+                Heap.shared[eng_._addr] = HSeq(ln(i), mk(i), numpy=isarr, etype=iet, note=("row", sid, i))
                 return VRef(eng_._addr)
             return row
         raise Unsupported("fresh_elemfn(%r)" % (et,))
+
+    def touch(self, v):
+        """Make the ground term of a scalar value visible to the quantifier matcher (an unconstrained predicate holds of it:
+        conservative).  Used where a model introduces a fresh index k and the facts about seq[k] are triggered by that term."""
+        t = v.val if isinstance(v, VFloat) else getattr(v, "t", None)
+        if t is None or not z3.is_app(t) or z3.is_const(t) and t.decl().kind() != z3.Z3_OP_UNINTERPRETED:
+            return
+        if t.get_id() in self._touched:
+            return
+        self._touched.add(t.get_id())
+        P = z3.Function("touch." + t.sort().name(), t.sort(), z3.BoolSort())
+        self.axioms.append(P(t))
 
     # -------------------------------------------------------------- obligations
     def oblige(self, st, name, goal, kind="safety", node=None, clause=""):
@@ -1150,6 +1166,10 @@ class Engine:
             return K["next"](st)
         if isinstance(v, ast.Call):
             d = self.dotted(v.func)
+            if d == "print" and any(k_.arg == "file" for k_ in v.keywords):
+                from .models import m_print_to_file
+                m_print_to_file(self, st, node)
+                return K["next"](st)
             if d in DROPPED_CALLS:
                 self.dropped.append("%s@%d" % (d, node.lineno))
                 return K["next"](st)
@@ -1332,7 +1352,8 @@ class Engine:
         for s_ in stmts:
             if isinstance(s_, ast.Pass):
                 continue
-            if isinstance(s_, ast.Expr) and isinstance(s_.value, ast.Call) and self.dotted(s_.value.func) in DROPPED_CALLS:
+            if isinstance(s_, ast.Expr) and isinstance(s_.value, ast.Call) and self.dotted(s_.value.func) in DROPPED_CALLS and \
+                    not any(k_.arg == "file" for k_ in s_.value.keywords):
                 continue
             if isinstance(s_, ast.Expr) and isinstance(s_.value, ast.Constant):
                 continue
@@ -1796,20 +1817,31 @@ class Engine:
         return obs
 
     # ----------------------------------------------------------------- solving
+    # z3 option sets tried in order until one of them decides the query (a portfolio; each is sound); "_timeout_ms" overrides the budget
+    solver_opts = ({}, {"auto_config": False})
+    PORTFOLIO_SHORT_FIRST = ({"auto_config": False, "_timeout_ms": 1500}, {"_timeout_ms": 1500}, {"auto_config": False}, {})
+
     def solve(self, ob, extra_axioms=()):
         t0 = time.time()
-        s = z3.Solver()
-        s.set("timeout", self.timeout_ms)
-        for a in self.axioms:
-            s.add(a)
-        for a in self.label_axioms():
-            s.add(a)
-        for a in extra_axioms:
-            s.add(a)
-        for c in ob.pc:
-            s.add(c)
-        s.add(z3.Not(ob.goal))
-        r = s.check()
+        r = z3.unknown
+        for opts in self.solver_opts:
+            s = z3.Solver()
+            s.set("timeout", int(opts.get("_timeout_ms", self.timeout_ms)))
+            for k_, v_ in opts.items():
+                if not k_.startswith("_"):
+                    s.set(k_, v_)
+            for a in self.axioms:
+                s.add(a)
+            for a in self.label_axioms():
+                s.add(a)
+            for a in extra_axioms:
+                s.add(a)
+            for c in ob.pc:
+                s.add(c)
+            s.add(z3.Not(ob.goal))
+            r = s.check()
+            if r != z3.unknown:
+                break
         ob.backend = "z3-%s" % z3.get_version_string()
         if r == z3.unsat:
             ob.status = "proved"
